@@ -552,7 +552,7 @@ func (ex *Exec) sliceOp(s *State, fr *Frame, x *ssa.Slice) Value {
 			if b.Kind == PByteArr {
 				k = SlBytes
 			}
-			return SliceV{Kind: k, Obj: b.Obj, Off: IAdd(b.Idx, lo), Len: ISub(hi, lo), Cap: ISub(capT, lo), Elem: ex.elemOf(x.X.Type())}
+			return SliceV{Kind: k, Obj: b.Obj, Off: IAdd(b.Idx, lo), Len: ISub(hi, lo), Cap: ISub(capT, lo), Elem: ex.elemOf(x.X.Type()), MaxLen: b.N}
 		}
 	case SliceV:
 		limit := b.Cap
